@@ -259,7 +259,10 @@ def last_record_without_newline(ctx, rng):
         if ser.exit != 0:
             raise RuntimeError(f"serial baseline failed for input without final newline: {ser.errors} {ser.exception!r}")
         longest = max(len(r[0]) + 2 * len(r[1]) + 6 for r in reads + reads2)
-        for bs in sorted(rng.sample(range(longest + 10, 4 * longest), 6 if ctx.quick else 25)):
+        # (the chunker hands out FASTQ records two at a time: with a buffer that cannot hold two records the reader
+        # stops with "record does not fit into buffer"; such a size does not split the input into chunks at all and
+        # is outside the property's "buffer sizes that split the input into 1..many chunks")
+        for bs in sorted(rng.sample(range(2 * longest + 10, 6 * longest), 8 if ctx.quick else 30)):
             nw = rng.choice((2, 3))
             seed = rng.randrange(10**9)
             argv = ["-j", str(nw), "--buffer-size", str(bs)] + base
